@@ -20,7 +20,7 @@ import (
 	"verif/vk"
 )
 
-const c10Rule = "rapid-generated programs of 1-40 field-map operations (typed/raw setters, overwrite, Remove, Clear, set again, SetGroup with nested templates, CopyInto a fresh, a dirty or a previously built message) on header/body/trailer of up to three messages; non-trivial = program contains remove->set of the same tag, clear->set, an overwrite, a group, or a copy of a message holding a group; distinct = distinct operation trace"
+const c10Rule = "rapid-generated programs of 1-40 field-map operations (typed/raw setters, overwrite, Remove, Clear, set again, SetGroup with nested templates, CopyInto a fresh, a dirty or a previously built message) on header/body/trailer of up to three messages, group entries carrying a field their template does not list (second stage, judged on the bytes); non-trivial = program contains remove->set of the same tag, clear->set, an overwrite, a group, or a copy of a message holding a group; distinct = distinct operation trace"
 
 func c10() *stats.Collector {
 	c := stats.Get("C10")
@@ -38,6 +38,9 @@ type mMember struct {
 type mEntry struct {
 	vals   map[int][]byte
 	groups map[int]*mGroup
+	// extra: a field the caller set on the entry that the group's template does not list (a
+	// counterparty-specific tag); it is written behind the entry's template members
+	extra *fixwire.Field
 }
 type mGroup struct {
 	tag     int
@@ -65,6 +68,9 @@ func (g *mGroup) flatten() []fixwire.Field {
 				out = append(out, ng.flatten()...)
 			}
 		}
+		if e.extra != nil {
+			out = append(out, *e.extra)
+		}
 	}
 	return out
 }
@@ -79,6 +85,7 @@ func (g *mGroup) clone() *mGroup {
 		for k, v := range e.groups {
 			ne.groups[k] = v.clone()
 		}
+		ne.extra = e.extra
 		c.entries = append(c.entries, ne)
 	}
 	return c
@@ -104,7 +111,7 @@ func (t *mTmpl) qf() quickfix.GroupTemplate {
 		if m.nested == nil {
 			gt = append(gt, quickfix.GroupElement(quickfix.Tag(m.tag)))
 		} else {
-			gt = append(gt, quickfix.NewRepeatingGroup(quickfix.Tag(m.tag), m.nested.qf()))
+			gt = append(gt, nestedItem(quickfix.NewRepeatingGroup(quickfix.Tag(m.tag), m.nested.qf())))
 		}
 	}
 	return gt
@@ -158,6 +165,9 @@ func fillEntry(fm *quickfix.FieldMap, t *mTmpl, e *mEntry) {
 		} else if ng, ok := e.groups[m.tag]; ok {
 			fm.SetGroup(ng.qf())
 		}
+	}
+	if e.extra != nil {
+		fm.SetBytes(quickfix.Tag(e.extra.Tag), e.extra.Value)
 	}
 }
 
@@ -819,5 +829,81 @@ func TestReplay_C10_CopyIntoParsedFixed(t *testing.T) {
 		if dst.String() != src.String() {
 			vk.Violation(t, c10(), "C10/copy/serialises-differently/plain", "source %s\ncopy   %s", vk.Show([]byte(src.String())), vk.Show([]byte(dst.String())))
 		}
+	})
+}
+
+// c10ExtraProperty: a group entry is a field map like any other - a field the caller sets on it
+// appears in the built message exactly once, also when the group's template does not list its tag
+// (templates come from generated code or a dictionary; counterparty-specific tags inside entries
+// are everyday FIX). Judged on the bytes alone: every field set, exactly once, members in
+// template order with the unlisted field behind them, BodyLength and CheckSum over what is there.
+func c10ExtraProperty(t *rapid.T) {
+	c := c10()
+	next := 5000
+	tm := genTemplate(t, 1, &next)
+	g := genGroup(t, 5900+rapid.IntRange(0, 9).Draw(t, "group-tag"), tm)
+	extras := 0
+	var mark func(g *mGroup)
+	mark = func(g *mGroup) {
+		for _, e := range g.entries {
+			if rapid.IntRange(0, 2).Draw(t, "entry-with-unlisted-field") == 0 {
+				e.extra = &fixwire.Field{Tag: rapid.SampledFrom([]int{6001, 9999, 20000}).Draw(t, "unlisted-tag"), Value: genValue(t, "xv")}
+				extras++
+			}
+			for _, ng := range e.groups {
+				mark(ng)
+			}
+		}
+	}
+	mark(g)
+	groupFill.order = rapid.IntRange(0, 2).Draw(t, "fill-order")
+	defer func() { groupFill.order, groupFill.reuse = 0, false }()
+	q := quickfix.NewMessage()
+	q.Header.SetString(8, "FIX.4.4")
+	q.Header.SetString(35, "D")
+	before := rapid.Bool().Draw(t, "scalar-before")
+	if before {
+		q.Body.SetString(11, "id")
+	}
+	q.Body.SetGroup(g.qf())
+	want := []fixwire.Field{}
+	if before {
+		want = append(want, fixwire.F(11, "id"))
+	}
+	want = append(want, g.flatten()...)
+	out := []byte(q.String())
+	c.Eval()
+	c.Class("unlisted-entry-field:program")
+	fr, err := fixwire.Analyze(out, nil)
+	if err != nil {
+		vk.Violation(t, c, "C10/build/unscannable/unlisted-entry-field", "%v: %s", err, vk.Show(out))
+	}
+	fs := fr.Fields
+	var body []fixwire.Field
+	for _, f := range fs {
+		if fixwire.IsBodyTag(f.Tag) {
+			body = append(body, f)
+		}
+	}
+	same := len(body) == len(want)
+	for i := 0; same && i < len(want); i++ {
+		same = body[i].Tag == want[i].Tag && bytes.Equal(body[i].Value, want[i].Value)
+	}
+	if !same {
+		vk.Violation(t, c, "C10/build/group-content/unlisted-entry-field", "fields set on the group's entries: %v\nbuilt message: %s", want, vk.Show(out))
+	}
+	if err := fr.WellFormed(); err != nil {
+		vk.Violation(t, c, "C10/build/arithmetic/unlisted-entry-field", "%v: %s", err, vk.Show(out))
+	}
+	if extras > 0 && len(g.entries) > 0 {
+		c.Class("program-with:unlisted-entry-field")
+		c.NonTrivial(stats.Hash("unlisted", string(out)))
+		c.SampleClass("unlisted-entry-field", map[string]interface{}{"built": vk.Show(out), "entries": len(g.entries), "unlisted_fields": extras})
+	}
+}
+
+func TestC10_UnlistedEntryField(t *testing.T) {
+	rapid.Check(t, func(t *rapid.T) {
+		vk.Guard(func() { c10ExtraProperty(t) })
 	})
 }
